@@ -329,6 +329,10 @@ def run_case(case):
         check_instance("operation", o, viol, counts, ep)
         classes.add("O|%s|%s|%s" % (o.operation_type.value, o.status.value, ep))
         ops = [gen_operation(rng, ep) for _ in range(rng.randrange(0, 3))]
+        if i % 60 == 7:
+            # long histories: an invocation event may carry hundreds of operations in its first page (order is part of the value)
+            ops = [gen_operation(rng, ep) for _ in range(rng.choice([63, 64, 65, 127, 128, 129, 255, 256, 257, 300, 511, 513, 1000, 1025]))]
+            classes.add("INPUT-long|%d" % (len(ops) // 128))
         inp = E.DurableExecutionInvocationInput(durable_execution_arn=rng.choice(["arn:x", ""]), checkpoint_token=rng.choice(["tok", ""]),
                                                 initial_execution_state=E.InitialExecutionState(operations=ops, next_marker=rng.choice(["", "mk"])))
         check_instance("input", inp, viol, counts, ep)
